@@ -121,11 +121,13 @@ class Esc:
         if self._callers is None:
             self._build()
         assert self._callers is not None
+        f = f.origin or f  # an analysis view is called by whoever calls the function it was made from
         return self._callers.get(id(f.node), [])
 
     def root_kind(self, f: FuncInfo) -> str:
         if self._callers is None:
             self._build()
+        f = f.origin or f
         return self._roots.get(id(f.node), '')
 
     def _add(self, callee: FuncInfo, caller: FuncInfo, site: ast.AST, via: str) -> None:
